@@ -68,7 +68,7 @@ def gen_case(rng):
 
 
 def generate(ctx):
-    return [gen_case(ctx.rng) for _ in range(ctx.n(220, 4000))]
+    return [gen_case(ctx.rng) for _ in range(ctx.n(260, 12000))]
 
 
 def _sides(case, vars_):
